@@ -18,6 +18,7 @@
 import Hx.Obs
 import Hx.Spec.Chk
 import Hx.Lemmas.Wrappers
+import Hx.Lemmas.CapChk
 namespace Hx
 
 theorem c17_chk_request (be : Backend) (hbe : be.Exact) (cfg : Config) (cap : Nat) (buf : List Byte) :
@@ -61,5 +62,13 @@ theorem c17_unlimited_request (be : Backend) (hbe : be.Exact) (cfg : Config) (ca
 theorem c17_unlimited_response (be : Backend) (hbe : be.Exact) (cfg : Config) (cap : Nat) (buf : List Byte)
     (v : RespVal) (h : buf.length ≤ cap) : (respCore be cfg cap buf v).status ≠ .err .tooManyHeaders :=
   resp_unlimited be hbe cfg cap buf v h
+
+theorem c17_chk_capacity_request (be : Backend) (hbe : be.Exact) (cfg : Config) (cap cap' : Nat) (h : cap ≤ cap')
+    (buf : List Byte) : chkC17cap cap (reqObs be cfg cap buf) (reqObs be cfg cap' buf) = true :=
+  chkC17cap_reqObs be hbe cfg cap cap' h buf
+
+theorem c17_chk_capacity_response (be : Backend) (hbe : be.Exact) (cfg : Config) (cap cap' : Nat) (h : cap ≤ cap')
+    (buf : List Byte) : chkC17cap cap (respObs be cfg cap buf) (respObs be cfg cap' buf) = true :=
+  chkC17cap_respObs be hbe cfg cap cap' h buf
 
 end Hx
